@@ -29,7 +29,6 @@ func c05Cfg() vestCfg {
 	}
 }
 
-
 func init() {
 	Register(&Check{ID: "C05", Level: "model_checking", Run: runC05})
 }
